@@ -34,3 +34,11 @@ func verifEvtSet(kind string, set *produceSet, a int) {
 		s(kind+".end", nil, a, 0)
 	}
 }
+
+func verifEvtMsgs(kind string, msgs []*ProducerMessage, a int) {
+	if s := VerifSink; s != nil {
+		for i, m := range msgs {
+			s(kind, m, a, i)
+		}
+	}
+}
